@@ -6,6 +6,7 @@ mod probe;
 mod pgen;
 mod astwalk;
 mod c01;
+mod c02;
 mod c03;
 mod sdump;
 mod c04;
@@ -39,6 +40,7 @@ fn gen_all(id: &str, seed: u64, n: usize, thorough: bool) -> Vec<String> {
         "C09" => c09::gen_cases(seed, n, thorough),
         "C12" => c12::gen_cases(seed, n, thorough),
         "C01" => c01::gen_cases(seed, n, thorough),
+        "C02" => c02::gen_cases(seed, n, thorough),
         "C03" => c03::gen_cases(seed, n, thorough),
         "C04" => c04::gen_cases(seed, n, thorough),
         "C08" => c08::gen_cases(seed, n, thorough),
@@ -63,6 +65,7 @@ fn run_line(id: &str, line: &str) -> String {
         "C09" => c09::run_line(line),
         "C12" => c12::run_line(line),
         "C01" => c01::run_line(line),
+        "C02" => c02::run_line(line),
         "C03" => c03::run_line(line),
         "C04" => c04::run_line(line),
         "C08" => c08::run_line(line),
